@@ -92,6 +92,12 @@ def run(tier, seed, replay):
             for n in range(off, N + off):
                 lines.append("C20.basis " + json.dumps({"N": N, "n": n, "offset": off}))
                 checks.append(("basis", N, n, off))
+    # the enumeration of the excitation-number-restricted space (the model of `state_number_enumerate` proved for C19:
+    # exactly the product states with at most `excitations` quanta, each once, in this order), bound 0 and bounds above
+    # the capacity included
+    for dims_e, exc_e in (([2, 2], 0), ([2, 2], 1), ([3, 2], 2), ([4], 0), ([4], 2), ([2, 3, 2], 3), ([3, 3], 9), ([1, 3], 1), ([3, 2, 2], 0), ([2, 2, 2, 2], 2)):
+        lines.append("C19.labels " + json.dumps({"dims": dims_e, "depth": exc_e}))
+        checks.append(("enr-enumeration", dims_e, exc_e))
     model = core.run_driver(lines)
     ndis, first = 0, None
 
@@ -104,6 +110,14 @@ def run(tier, seed, replay):
         rep.count("model=" + ck[0])
         if isinstance(m, dict) and "error" in m:
             dis({"check": ck, "model": m})
+            continue
+        if ck[0] == "enr-enumeration":
+            _, dims_e, exc_e = ck
+            rep.evaluations += 1
+            got_states = [[int(x) for x in st_] for st_ in qutip.state_number_enumerate(dims_e, exc_e)]
+            nst, s2i, i2s = qutip.enr_state_dictionaries(dims_e, exc_e)
+            if got_states != m["labels"] or [list(i2s[k]) for k in range(nst)] != m["labels"] or any(s2i[tuple(l)] != k for k, l in enumerate(m["labels"])):
+                dis({"check": ck, "model": m["labels"], "impl": got_states})
             continue
         if ck[0] == "ladder":
             _, N, off = ck
